@@ -137,16 +137,24 @@ class ParseWalk(object):
 def r_delimiters(mod, rep, R='R5.1'):
     # the tokeniser: the module-level compiled regex that Category.parse (or a helper it calls) uses
     from ..core import closure_walk
-    regexes = {t.id: s_.value for s_ in mod.tree.body if isinstance(s_, ast.Assign) and isinstance(s_.value, ast.Call)
-               and src(s_.value.func) == 're.compile' and s_.value.args and isinstance(s_.value.args[0], ast.Constant)
-               for t in s_.targets if isinstance(t, ast.Name)}
+    from ..rules_grammar import _const_text
+    regexes = {}
+    patterns = {}
+    for s_ in mod.tree.body:
+        if isinstance(s_, ast.Assign) and isinstance(s_.value, ast.Call) and src(s_.value.func) == 're.compile' and s_.value.args:
+            pt_ = _const_text(mod, s_.value.args[0], {})       # a literal, or a text put together from module constants
+            if pt_ is not None:
+                for t in s_.targets:
+                    if isinstance(t, ast.Name):
+                        regexes[t.id] = s_.value
+                        patterns[t.id] = pt_
     used = [n.id for n in closure_walk(mod.get('Category.parse')) if isinstance(n, ast.Name) and n.id in regexes]
     used = list(dict.fromkeys(used))
     if len(used) != 1:
         raise AnalysisError('%s: cannot identify the tokeniser regex used by Category.parse (candidates: %s)' % (REL, used))
     TOK = used[0]
     cs = regexes[TOK]
-    pat = cs.args[0].value
+    pat = patterns[TOK]
     cls, style, swallowed = regex_class(pat)
     w = '%s:%s <module>' % (REL, cs.lineno)
     if style == 'split':
